@@ -22,7 +22,7 @@ Requirements for the change:
 
 Deliverables — create the directory /tmp/mut/{id}/out and put there:
   - patch.diff : output of `git diff` (run inside /tmp/mut/{id}, relative to its HEAD) containing ONLY your change to non-test source files of the repository (do not include the demonstration in the patch).
-  - a demonstration: demo_test.go (a Go test file; state in notes.md which package directory it must be copied into and the `go test -run` command). The demonstration must FAIL (or panic / hang with a timeout) WITH your change applied and PASS WITHOUT it. Verify both directions yourself (use `git stash` or `git apply -R` to check the without-change direction) and keep the demonstration file out of the working tree when producing patch.diff.
+  - a demonstration: demo_test.go (a Go test file; state in notes.md which package directory it must be copied into and the `go test -run` command). The demonstration must FAIL (or panic / hang with a timeout) WITH your change applied and PASS WITHOUT it. Verify both directions yourself (to check the without-change direction use `git diff > /tmp/mut/{id}/p.diff && git apply -R /tmp/mut/{id}/p.diff`, then `git apply /tmp/mut/{id}/p.diff` to restore; do NOT use `git stash`: the stash is shared with other worktrees of the same repository and other agents' changes get mixed up) and keep the demonstration file out of the working tree when producing patch.diff.
   - notes.md : what the change is, why it breaks the property, what specific condition it needs in order to manifest, and the exact commands you ran with their observed results in both directions. First line of notes.md: `DEMO: <package dir> <go test -run regex>`.
 
 Finish by leaving the worktree with your change APPLIED (uncommitted) and the out/ directory populated. Reply with a short summary (what you changed, what it needs to manifest, and confirmation that tests pass and the demonstration behaves as required).'''
